@@ -88,8 +88,12 @@ CLAIMED = {
     "C04": dict(
         text="Theorems C04_v1/C04_v2/C04_auto (Props/C04.v): an accepted input followed by ANY bytes, and the reported header "
              "bytes on their own, are accepted with the identical result; the header is the input through the CRLF resp. "
-             "the first 16+length bytes. For all inputs and all trailers. Tie: 3M cases (inputs x 11 trailers x 3 entry points).",
-        ref="7-C04", technique="Coq proof (window lemma / closed form of p2) + metamorphic differential check with trailers"),
+             "the first 16+length bytes. For all inputs and all trailers. C04_accepts_frame / C04_pipeline (Proofs/Consume.v): "
+             "what the auto-detecting parser accepts is a self-parsing prefix of the input, and a receive loop that removes exactly "
+             "the reported header length reads ANY number of back-to-back v1/v2 headers one by one, in order, leaving exactly the "
+             "bytes that follow (induction over the list of headers). Tie: 3.9M cases (inputs x 11 trailers x 3 entry points; "
+             "pipelined concatenations of 3 or 7 headers of both versions through the same loop in the harness and in the model).",
+        ref="7-C04", technique="Coq proof (window lemma / closed form of p2; induction over pipelined headers) + metamorphic differential check with trailers and pipelines"),
     "C05": dict(
         text="Theorems C05_v1/C05_v2/C05_v2_auto/C05_flags (Props/C05.v): every proper prefix of every accepted US-ASCII v1 "
              "line is incomplete through the byte, &str and auto entry points; every proper prefix of every accepted v2 header "
